@@ -499,6 +499,27 @@ def case_corr(mon, xs, ys, al, be, ga, de):
         return
     mon.check("corr.sign-flip", abs(r3 + r) <= 1e-9 and abs(r4 + r) <= 1e-9,
               dict(case, r=r, x_negated=r3, y_negated=r4))
+    # rescaling by powers of two is exact in floating point: r must not move
+    # even when the sums of squares approach the ends of the double range
+    mx_ = max(abs(v) for v in xs)
+    my_ = max(abs(v) for v in ys)
+
+    def p2(target, m):
+        return 2.0 ** round(math.log2(target / m))
+    for sx_, sy_ in ((1.0, p2(1e148, my_)), (p2(1e148, mx_), 1.0),
+                     (1.0, p2(1e-148, my_)),
+                     (p2(1e-78, mx_), p2(1e-78, my_)),
+                     (p2(1e100, mx_), p2(1e-100, my_))):
+        mon.evals += 1
+        try:
+            rp = CF([sx_ * x for x in xs],
+                    [sy_ * y for y in ys]).correlation_coeff()
+        except Exception as ex:
+            rp = repr(ex)
+        mon.check("corr.affine-invariant", isinstance(rp, float)
+                  and abs(rp - r) <= 1e-12,
+                  lambda: dict(case, r=r, rescaled=rp,
+                               scale_x_y=[sx_, sy_]))
     X2 = [Fraction(al * x + be) for x in xs]
     Y2 = [Fraction(ga * y + de) for y in ys]
     cx2 = float((n * sum(v * v for v in X2) - sum(X2) ** 2)
